@@ -471,14 +471,17 @@ class Scripted(BaseStrategy):
                 STATS["fok"] += o.order_type.time_in_force == "FILL_OR_KILL"
 
 
-def run(path, meta, seeds, failures, monitor_idx=None, isolation=True, available=False):
+def run(path, meta, seeds, failures, monitor_idx=None, isolation=True, available=False, listener_kwargs=None):
     config.simulated_strategy_isolation = isolation
     config.simulation_available_prices = available
     client = clients.SimulatedClient()
     fw = FlumineSimulation(client=client)
     strategies = []
     for i, s in enumerate(seeds):
-        st = Scripted(s, meta, failures, monitor=(monitor_idx is None or i in monitor_idx), market_filter={"markets": [path]}, name="S%d" % s,
+        mf = {"markets": [path]}
+        if listener_kwargs and listener_kwargs.get(i):
+            mf["listener_kwargs"] = listener_kwargs[i]
+        st = Scripted(s, meta, failures, monitor=(monitor_idx is None or i in monitor_idx), market_filter=mf, name="S%d" % s,
                       max_order_exposure=1e6, max_selection_exposure=1e6, max_live_trade_count=1000, max_trade_count=100000)
         fw.add_strategy(st)
         strategies.append(st)
@@ -532,6 +535,19 @@ def main():
                     d, str(alone[0].ledger[d])[:400] if d is not None else None, str(alone_off[0].ledger[d])[:400] if d is not None else None)
                 for k in ("C06", "C07"):
                     failures.setdefault(k, []).append(msg)
+            # C13: a strategy registered AFTER one that restricts its data with listener filters still gets every update of the
+            # file (its own stream), so its ledger is the one it has alone
+            if it % 4 == 0:
+                try:
+                    alone_b = run(path, meta, [sb], failures, monitor_idx=set())
+                    after_restricted = run(path, meta, [sa, sb], failures, monitor_idx=set(), listener_kwargs={0: rnd.choice([{"inplay": True}, {"inplay": False}, {"seconds_to_start": 1}])})
+                except Exception:
+                    import traceback
+                    failures.setdefault("CRASH", []).append(traceback.format_exc()[-900:])
+                    break
+                evaluations += 2
+                if alone_b[0].ledger != after_restricted[1].ledger:
+                    failures.setdefault("C13", []).append("a strategy registered after one with listener filters on the same file does not see the data it sees alone: %d callbacks alone, %d alongside" % (len(alone_b[0].ledger), len(after_restricted[1].ledger)))
             # resting orders also matched against the prices on offer (config.simulation_available_prices): the same conservation /
             # limit monitors, plus the per-update bound of passive_fill_monitor extended by the sizes on offer within the limit
             try:
